@@ -1797,7 +1797,8 @@ impl ElementMut for XmlElement {
             return Err(error::DomException::WrongDocumentErr)?;
         }
 
-        if new_attr.attribute.borrow().order() != 0 {
+        // In use: the attribute has an owner element (which may itself be outside the document).
+        if new_attr.attribute.borrow().owner_element().is_ok() {
             return Err(error::DomException::InuseAttributeErr)?;
         }
 
